@@ -1288,6 +1288,27 @@ class Lo(Expr):
         return relocate_lo(value)
 
 
+# does the value of an expression depend on the position of the item that holds it?
+def is_position_relative(expr):
+    if isinstance(expr, Offset):
+        return True
+    if isinstance(expr, (Position, Hi, Lo)):
+        return is_position_relative(expr.expr)
+    return False
+
+
+# can the value of an expression no longer change while later passes still move items and labels?
+# only if it involves neither labels nor the (not yet final) position of the item itself
+def is_settled(expr, position, constants, line):
+    if is_position_relative(expr):
+        return False
+    try:
+        expr.eval(position, constants, line)
+    except AssemblerError:
+        return False
+    return True
+
+
 # base class for assembly "things"
 class Item(abc.ABC):
 
@@ -2869,13 +2890,14 @@ def transform_compressible(items, constants, labels):
             new_items.append(item)
             continue
 
-        # a compression decision is final, but an immediate that depends on labels can still change
-        # (labels only settle once every later item has its final size). only plain offsets are safe
-        # to decide on early, since later passes can only move them towards zero.
-        if hasattr(item, 'imm') and not isinstance(item.imm, Offset):
-            try:
-                item.imm.eval(position, constants, item.line)
-            except AssemblerError:
+        # a compression decision is final, but an immediate that depends on labels or on the position
+        # of the item can still change (both only settle once every item has its final size). the one
+        # safe early decision is the distance from a jump / branch to a label, since later passes can
+        # only move it towards zero (the distance to a constant, an absolute position, can grow).
+        if hasattr(item, 'imm'):
+            jump_to_label = (isinstance(item, (BTypeInstruction, JTypeInstruction))
+                             and isinstance(item.imm, Offset) and item.imm.reference not in constants)
+            if not jump_to_label and not is_settled(item.imm, position, constants, item.line):
                 position += item.size()
                 new_items.append(item)
                 continue
@@ -2990,12 +3012,8 @@ def transform_pseudo_instructions(items, constants, labels):
             env = ChainMap(constants, labels)
             value = imm.eval(position, env, item.line)
             value = c_int32(value).value  # signed imm
-            # the short form is final, so only take it if the value can no longer change (no labels involved)
-            try:
-                imm.eval(position, constants, item.line)
-                stable = True
-            except AssemblerError:
-                stable = False
+            # the short form is final, so only take it if the value can no longer change
+            stable = is_settled(imm, position, constants, item.line)
             if stable and value >= (-2**11) and value <= (2**11 - 1):
                 inst = ITypeInstruction(item.line, 'addi', rd=rd, rs1='x0', imm=Lo(imm))
                 # shrink all subsequent labels by 4
@@ -3077,7 +3095,8 @@ def transform_pseudo_instructions(items, constants, labels):
             env = ChainMap(constants, labels)
             value = imm.eval(position, env, item.line)
             value = c_int32(value).value  # signed imm
-            if value >= (-2**20) and value <= (2**20 - 1):
+            # the distance to a constant (an absolute position) can still grow, the distance to a label cannot
+            if reference not in constants and value >= (-2**20) and value <= (2**20 - 1):
                 inst = JTypeInstruction(item.line, 'jal', rd='x1', imm=imm)
                 # shrink all subsequent labels by 4
                 new_labels = {k: v - 4 for k, v in labels.items() if v > position}
@@ -3098,7 +3117,8 @@ def transform_pseudo_instructions(items, constants, labels):
             env = ChainMap(constants, labels)
             value = imm.eval(position, env, item.line)
             value = c_int32(value).value  # signed imm
-            if value >= (-2**20) and value <= (2**20 - 1):
+            # the distance to a constant (an absolute position) can still grow, the distance to a label cannot
+            if reference not in constants and value >= (-2**20) and value <= (2**20 - 1):
                 inst = JTypeInstruction(item.line, 'jal', rd='x0', imm=imm)
                 # shrink all subsequent labels by 4
                 new_labels = {k: v - 4 for k, v in labels.items() if v > position}
